@@ -430,6 +430,32 @@ class ExprMixin(object):
                         for g, v_ in reversed(seq[:-1]):
                             out = self.mk_ite(st, g, v_, out)
                         return out
+                if isinstance(idx, Fin) and all(isinstance(g, Const) and truth_const(g.v) for g, _ in o.items):
+                    # a discrete index (a table over the inputs): one arm per index value, IndexError
+                    # for the values outside the list
+                    fo = st.folder()
+                    ridx = fo.restrict(idx)
+                    if isinstance(ridx, Const):
+                        return self.subscript(st, base, ridx, node, module)
+                    vals = sorted(set(ridx.table.values()), key=T.ckey)
+                    if all(isinstance(i, int) and not isinstance(i, bool) for i in vals):
+                        n_ = len(o.items)
+                        bad = [i for i in vals if not (-n_ <= i < n_)]
+                        if bad:
+                            c = fo.fold(lambda x: x in bad, [ridx])
+                            self.hazard(st, "IndexError", node, module, c, "list index may be %s for a list of %d entries" % (bad[:4], n_))
+                            if len(bad) == len(vals):
+                                raise Dead()
+                            self.assume(st, mk_not(c))
+                            fo = st.folder()
+                            ridx = fo.restrict(idx)
+                            if isinstance(ridx, Const):
+                                return o.items[ridx.v][1]
+                        good = [i for i in vals if -n_ <= i < n_]
+                        out = o.items[good[-1]][1]
+                        for i in reversed(good[:-1]):
+                            out = self.mk_ite(st, fo.fold(lambda x, i=i: x == i, [ridx]), o.items[i][1], out)
+                        return out
                 raise AnalysisError("E5.subscript", "symbolic list indexing", node, module)
         if isinstance(base, TupleVal):
             if isinstance(idx, Const) and isinstance(idx.v, int):
